@@ -40,6 +40,28 @@ func c11Child(args []string) int {
 	path := args[0]
 	n, _ := strconv.ParseUint(args[1], 10, 64)
 	steps := strings.Split(args[2], ",")
+	// optional: length in bytes of the image before the open (filled with
+	// imgPattern); then the expected content of a block that was never written
+	// is known too: the retained prefix of the prior image, then zeros.
+	priorLen := -1
+	if len(args) > 3 {
+		priorLen, _ = strconv.Atoi(args[3])
+	}
+	expect := func(model map[uint64][]byte, known map[uint64]bool, a uint64) ([]byte, bool) {
+		if m, ok := model[a]; ok || known[a] {
+			return m, known[a]
+		}
+		if _, failed := known[a]; failed || priorLen < 0 || a >= n {
+			return nil, false
+		}
+		b := make([]byte, disk.BlockSize)
+		for j := range b {
+			if off := int(a)*int(disk.BlockSize) + j; off < priorLen {
+				b[j] = imgPattern(off)
+			}
+		}
+		return b, true
+	}
 	var d disk.FileDisk
 	open := false
 	model := map[uint64][]byte{} // nil entry: unknown (a write failed)
@@ -84,10 +106,12 @@ func c11Child(args []string) int {
 				d.Write(a, content)
 			case "R":
 				b := d.Read(a)
-				extra = c11Compare(b, model[a], known[a], false)
+				w, k := expect(model, known, a)
+				extra = c11Compare(b, w, k, false)
 			case "T":
 				d.ReadTo(a, dirty)
-				extra = c11Compare(dirty, model[a], known[a], true)
+				w, k := expect(model, known, a)
+				extra = c11Compare(dirty, w, k, true)
 			case "B":
 				d.Barrier()
 			case "C":
@@ -140,6 +164,18 @@ func c11Compare(got, want []byte, known, dirtyBuf bool) string {
 			}
 		}
 	}
+	// lastbad: offset of the last byte differing from the expectation (-1:
+	// none, or the expectation is unknown). After a faked K-byte transfer the
+	// bytes below K were never moved, so only lastbad >= K can be judged.
+	lastBad := -1
+	if known && len(got) == len(want) {
+		for i := len(got) - 1; i >= 0; i-- {
+			if got[i] != want[i] {
+				lastBad = i
+				break
+			}
+		}
+	}
 	dirt := 0
 	if dirtyBuf {
 		for _, c := range got {
@@ -148,5 +184,5 @@ func c11Compare(got, want []byte, known, dirtyBuf bool) string {
 			}
 		}
 	}
-	return fmt.Sprintf("len=%d match=%s tailmatch=%s dirt=%d", len(got), match, tailMatch, dirt)
+	return fmt.Sprintf("len=%d match=%s tailmatch=%s dirt=%d lastbad=%d", len(got), match, tailMatch, dirt, lastBad)
 }
